@@ -68,12 +68,15 @@ Print Assumptions C12_pipe.
 Definition q0 (s : bytes) : bytes := B """" ++ s ++ B """".
 Definition size0 (s : bytes) : option N := if bytes_eqb s (B "7") then Some 7%N else None.
 (* the model of ParseLql / Lql.String() at a variant: [bare] = a keyword-only text is an (empty) statement,
-   [oldtr] = TRUNCATE printed by the earlier printer. The code is (false, false): parse0 / print0. *)
+   [oldtr] = TRUNCATE printed by the earlier printer, [oldrg] = the Range printer before `RANGE [` was printed back.
+   The code is all false: parse0 / print0. The one tag literal `{a=b}` is known to the stand-ins. *)
+Definition tags0 (s : bytes) : option tagset := if bytes_eqb s (B "{a=b}") then Some [(B "a", B "b")] else None.
+Definition line0 (t : tagset) : bytes := B "a=b".
 Definition parse0_v (bare : bool) : bytes -> option lql :=
-  parse_lql_text_v go_unquote (fun _ => None) (fun _ => None) size0 bare.
-Definition print0_v (oldtr : bool) : lql -> bytes := pr_lql_v q0 (fun _ => []) (fun _ => []) oldtr.
-Definition parse0 : bytes -> option lql := parse_lql_text go_unquote (fun _ => None) (fun _ => None) size0.
-Definition print0 : lql -> bytes := pr_lql q0 (fun _ => []) (fun _ => []).
+  parse_lql_text_v go_unquote tags0 (fun _ => None) size0 bare.
+Definition print0_v (oldtr oldrg : bool) : lql -> bytes := pr_lql_v q0 line0 (fun _ => []) oldtr oldrg.
+Definition parse0 : bytes -> option lql := parse_lql_text go_unquote tags0 (fun _ => None) size0.
+Definition print0 : lql -> bytes := pr_lql q0 line0 (fun _ => []).
 
 (* same meaning, on the AST: equal once an empty format string (= the default format, for the one reader of
    Select.Format in client/shell) is read as no format *)
@@ -84,35 +87,56 @@ Definition stmt_statement (parse : bytes -> option lql) (print : lql -> bytes) :
   forall text l, parse text = Some l -> exists l', parse (print l) = Some l' /\ lql_norm l' = lql_norm l.
 Definition C12_stmt_statement : Prop := stmt_statement parse0 print0.
 
-(* Still refuted for the code, by the one shape left: `SELECT RANGE [ WHERE a=b` parses to a Range with no point,
-   printed as a blank: `SELECT RANGE  WHERE ..` fails. (`SELECT ""` prints as `SELECT` and comes back as the bare
-   SELECT, the same meaning.) *)
+(* Still refuted for the code, by the one recorded shape left (tags-then-brace): the lexer's Tags class \{.+\} runs to
+   the LAST closing brace of the line, so `SELECT FROM {a=b}<LF>WHERE msg contains "}"`, which parses because of the line
+   break, is printed on one line and no longer lexes. (`SELECT ""` prints as `SELECT` and comes back as the bare
+   SELECT, the same meaning; `SELECT RANGE [ WHERE a=b` prints the bracket back and comes back as it was.) *)
+Definition brace_text : bytes := B "SELECT FROM {a=b}" ++ x0a :: B "WHERE msg contains ""}""".
 Theorem C12_stmt_refuted :
   ~ C12_stmt_statement /\
-  (exists l, parse0 (B "SELECT RANGE [ WHERE a=b") = Some l /\ print0 l = B "SELECT RANGE  WHERE a = ""b""" /\
+  (exists l, parse0 brace_text = Some l /\ print0 l = B "SELECT FROM {a=b} WHERE msg contains ""}""" /\
              parse0 (print0 l) = None) /\
   (exists s, parse0 (B "SELECT """"") = Some (LSelect s) /\ s_format s = Some [] /\ print0 (LSelect s) = B "SELECT" /\
-             parse0 (B "SELECT") = Some (LSelect empty_select) /\ lql_norm (LSelect s) = LSelect empty_select).
+             parse0 (B "SELECT") = Some (LSelect empty_select) /\ lql_norm (LSelect s) = LSelect empty_select) /\
+  (exists l, parse0 (B "SELECT RANGE [ WHERE a=b") = Some l /\ print0 l = B "SELECT RANGE [ WHERE a = ""b""" /\
+             parse0 (print0 l) = Some l).
 Proof.
-  split; [|split].
+  split; [|split; [|split]].
   - intros H.
-    assert (exists l, parse0 (B "SELECT RANGE [ WHERE a=b") = Some l /\ parse0 (print0 l) = None) as (l & E1 & E2)
+    assert (exists l, parse0 brace_text = Some l /\ parse0 (print0 l) = None) as (l & E1 & E2)
       by (eexists; split; [vm_compute; reflexivity|vm_compute; reflexivity]).
     destruct (H _ _ E1) as (l' & Hl & _). rewrite E2 in Hl. discriminate Hl.
   - eexists. split; [vm_compute; reflexivity|]. split; vm_compute; reflexivity.
   - eexists. split; [vm_compute; reflexivity|]. repeat split; vm_compute; reflexivity.
+  - eexists. split; [vm_compute; reflexivity|]. split; vm_compute; reflexivity.
 Qed.
 Print Assumptions C12_stmt_refuted.
+
+(* The Range printer before its repair wrote a blank for the Range read from `RANGE [` (both points absent):
+   `SELECT RANGE  WHERE ..` does not parse *)
+Theorem C12_stmt_old_range_printer_refuted :
+  ~ stmt_statement parse0 (print0_v false true) /\
+  (exists l, parse0 (B "SELECT RANGE [ WHERE a=b") = Some l /\ print0_v false true l = B "SELECT RANGE  WHERE a = ""b""" /\
+             parse0 (print0_v false true l) = None).
+Proof.
+  split.
+  - intros H.
+    assert (exists l, parse0 (B "SELECT RANGE [ WHERE a=b") = Some l /\ parse0 (print0_v false true l) = None) as (l & E1 & E2)
+      by (eexists; split; [vm_compute; reflexivity|vm_compute; reflexivity]).
+    destruct (H _ _ E1) as (l' & Hl & _). rewrite E2 in Hl. discriminate Hl.
+  - eexists. split; [vm_compute; reflexivity|]. split; vm_compute; reflexivity.
+Qed.
+Print Assumptions C12_stmt_old_range_printer_refuted.
 
 (* What the two repairs bought. ParseLql as it was (a keyword-only text accepted) with the earlier TRUNCATE printer:
    `SELECT` parsed to the statement with no member, whose print is the empty text, which does not parse (a bare
    SELECT query returned nothing); `TRUNCATE MAXDBSIZE 7` printed as `TRUNCATE`: the size limit gone after
    re-parsing. With the code's variants both texts come back as they went in. *)
 Theorem C12_stmt_before_repairs_refuted :
-  ~ stmt_statement (parse0_v true) (print0_v true) /\
-  (parse0_v true (B "SELECT") = Some LNone /\ print0_v true LNone = [] /\ parse0_v true [] = None) /\
+  ~ stmt_statement (parse0_v true) (print0_v true false) /\
+  (parse0_v true (B "SELECT") = Some LNone /\ print0_v true false LNone = [] /\ parse0_v true [] = None) /\
   (exists t, parse0_v true (B "TRUNCATE MAXDBSIZE 7") = Some (LTruncate t) /\ tr_maxdb t = Some 7%N /\
-             print0_v true (LTruncate t) = B "TRUNCATE" /\
+             print0_v true false (LTruncate t) = B "TRUNCATE" /\
              exists t', parse0_v true (B "TRUNCATE") = Some (LTruncate t') /\ tr_maxdb t' = None) /\
   (* the code *)
   (parse0 (B "SELECT") = Some (LSelect empty_select) /\ print0 (LSelect empty_select) = B "SELECT" /\
@@ -123,7 +147,7 @@ Proof.
   split; [|split; [|split; [|split]]].
   - intros H.
     assert (parse0_v true (B "SELECT") = Some LNone) as E1 by (vm_compute; reflexivity).
-    assert (parse0_v true (print0_v true LNone) = None) as E2 by (vm_compute; reflexivity).
+    assert (parse0_v true (print0_v true false LNone) = None) as E2 by (vm_compute; reflexivity).
     destruct (H _ _ E1) as (l' & Hl & _). rewrite E2 in Hl. discriminate Hl.
   - repeat split; vm_compute; reflexivity.
   - eexists. split; [vm_compute; reflexivity|]. split; [reflexivity|]. split; [vm_compute; reflexivity|].
@@ -140,8 +164,8 @@ Proof. exact parse_lql_not_none. Qed.
 Print Assumptions C12_stmt_never_empty.
 
 (* Partial: every statement kind round-trips on the token image of its print -- SELECT with any subset of
-   its seven clauses (the bare SELECT included), SHOW PARTITIONS / PIPES, DESCRIBE, TRUNCATE with any subset of its
-   six clauses, CREATE / DELETE PIPE -- under stmt_ok, which excludes the shapes left (a Range without points; an
+   its seven clauses (the bare SELECT and `RANGE [` included), SHOW PARTITIONS / PIPES, DESCRIBE, TRUNCATE with any subset of its
+   six clauses, CREATE / DELETE PIPE -- under stmt_ok, which excludes the shapes left (an
    empty format string, for which see C12_select_empty_format; Pipes.Void; the statement with no member, which
    ParseLql does not return) and otherwise asks, clause by clause: expressions well-formed as in C12_expr; tag sets,
    times and sizes that the environment's own parse functions read back from the environment's own print
